@@ -540,4 +540,3 @@ func bucket(n int) int {
 	}
 	return 1000
 }
-
